@@ -61,7 +61,11 @@ OuterLoop:
 				foundDot     bool
 			)
 		ArgLoop:
-			for i++; i < len(format); i++ {
+			for i++; ; i++ {
+				if i >= len(format) {
+					// The format string ends in the middle of a conversion
+					return "", errors.New("invalid format string")
+				}
 				switch format[i] {
 				case '%':
 					continue OuterLoop
@@ -148,6 +152,9 @@ OuterLoop:
 					break ArgLoop
 				case 'p':
 					// Pointer address, new in Lua 5.4
+					if len(args) <= j {
+						return "", errNotEnoughValues
+					}
 					switch v := values[j]; v.Type() {
 					case rt.BoolType, rt.FloatType, rt.IntType, rt.NilType:
 						outFormat[i] = 's'
